@@ -50,6 +50,7 @@ class FnContract:
     runtime: object = None  # Runtime: generator of real inputs for cross-check / replay
     alias_ok: tuple = ()
     canon_binders: bool = False  # emit this contract's obligations with canonical bound-variable names (alpha-equivalent sub-formulas become identical terms)
+    beta_reduce: bool = False  # indexing a heap-derived `Map` view whose value is syntactically a lambda substitutes the index into the body (no `select(lambda, t)` in the obligations, so hypotheses and goals about the underlying fields e-match)
     portfolio: tuple | list | None = None  # solver order for this contract's obligations, e.g. ["cvc5", "z3-5.1"]: the names listed are tried first (in this order), the rest of the default portfolio follows, so a verdict never depends on the list
     seq_bridge: bool = False  # a list built from other lists (`append`, `extend`, `insert`, `+`, `+=`) comes with POSITIONAL facts on the new sequence (nth(new, j) == nth(part, j - offset), pattern nth(new, j)): position-wise invariants become e-matching + arithmetic
     comp_member_facts: bool = True  # set/dict comprehensions over a LIST assume "every position holds a member" / "every member has a position" for the source list; switch off where these two quantified facts slow unrelated obligations down
